@@ -1,6 +1,8 @@
 package main
 
 import (
+	"fmt"
+
 	"verif/harness/gen"
 )
 
@@ -39,6 +41,22 @@ func scalePrograms() []*gen.Program {
 			where(chain("+", n, letters)),
 			where(chain("or", n, letters)),
 			gen.Single(&gen.Pipeline{Source: gen.Ident{Name: "T"}, Ops: []gen.Op{&gen.Sort{Kw: "sort", Terms: terms}}}),
+		)
+		// long lists whose last (or a middle) element is not a literal; calls with a trailing comma
+		var vals, vals2, args []gen.Expr
+		for i := 0; i < n; i++ {
+			vals = append(vals, gen.NumLit(fmt.Sprint(i+1), fmt.Sprint(i+1)))
+			vals2 = append(vals2, gen.StrLit(fmt.Sprint("s", i)))
+			args = append(args, letters(i))
+		}
+		vals = append(vals, &gen.Binary{Op: "+", X: gen.NumLit("8", "8"), Y: gen.NumLit("9", "9")})
+		if n >= 3 {
+			vals2[n-2] = gen.Col("y")
+		}
+		out = append(out,
+			where(&gen.In{X: a, Vals: vals}),
+			where(&gen.In{X: a, Vals: vals2}),
+			where(&gen.Binary{Op: ">", X: &gen.Call{Func: "strcat", Args: args, TrailingComma: true}, Y: one}),
 		)
 		// sibling groups
 		out = append(out,
